@@ -194,6 +194,22 @@ def c01(ctx):
                 a, b = ctx.r.choice(insts), ctx.r.choice(insts)
                 pairs.append((tag, {"items": schema}, [a, b]))
                 pairs.append((tag, {"additionalProperties": schema}, {"x": a, "y": b}))
+    # wide instances: several hundred members each meeting a nested subschema inside ONE validation
+    # (whatever a validator counts per descent, per error or per abandoned sub-validation shows only here)
+    for tag in DRAFT_TAGS:
+        w = 340 + ctx.r.randrange(120)
+        sub = {"type": "object", "properties": {"a": {"type": "integer"}}}
+        if tag in ("d6", "d7"):
+            pairs.append((tag, {"contains": dict(sub, required=["a"])}, [{"a": "x"} for _k in range(w)] + [{"a": 1}]))
+            pairs.append((tag, {"items": {"if": sub, "then": {"required": ["a"]}}} if tag == "d7" else {"items": {"not": {"not": sub}}},
+                          [{"a": "x"} for _k in range(w)] + [{"a": 1}, {}]))
+        if tag != "d3":
+            pairs.append((tag, {"not": {"items": sub}}, [{"a": "x"} for _k in range(w)]))
+            pairs.append((tag, {"additionalProperties": {"oneOf": [sub, {"type": "string"}]}}, dict(("k%d" % k, {"a": "x"} if k % 2 else "s") for k in range(w))))
+        else:
+            pairs.append((tag, {"disallow": [{"items": sub}]}, [{"a": "x"} for _k in range(w)]))
+            pairs.append((tag, {"items": {"disallow": [sub]}}, [{"a": "x"} for _k in range(w)] + [{"a": 1}]))
+        pairs.append((tag, {"items": sub}, [{"a": 1} for _k in range(w)] + [{"a": "x"}]))
     for _ in range(ctx.n(3000) + len(directed) + len(pairs)):
         forced = None
         if pairs:
@@ -211,8 +227,9 @@ def c01(ctx):
         insts = [ctx.g.instance_for(tag, schema) for _k in range(3)] if forced is None else [forced]
         # one more: an earlier instance with one number re-typed (3.0 <-> 3.5, 1 <-> true <-> 1.0), or
         # several of them side by side in one array, so that one validation meets both
-        x = ctx.g.retype(ctx.r.choice(insts))
-        insts.append(x if ctx.r.random() < 0.5 else [ctx.r.choice(insts), x, ctx.g.retype(x)])
+        if not (forced is not None and isinstance(forced, (list, dict)) and len(forced) > 100):
+            x = ctx.g.retype(ctx.r.choice(insts))
+            insts.append(x if ctx.r.random() < 0.5 else [ctx.r.choice(insts), x, ctx.g.retype(x)])
         for inst in insts:
             case = {"cls": tag, "schema": schema, "inst": inst, "budget": 1}
             sp = ctx.drv.run("SPEC", {"d": tag, "schema": schema, "inst": inst}, orc)
@@ -583,23 +600,31 @@ C04_CORPUS = [
     ({"properties": {"x": {"$ref": "#/definitions/a", "type": "integer", "enum": []}}, "definitions": {"a": {"type": "string"}}}, [{"x": "s"}, {"x": 1}, {}]),
     ({"items": {"$ref": "#/definitions/a", "type": "array", "maxItems": 0}, "definitions": {"a": {"minimum": 1}}}, [[0, 2], [3], "s"]),
     ({"type": "object", "required_or_not": 1, "properties": {"a": {"type": "string"}, "b": {"type": "integer"}}}, [{"a": 1, "b": "s"}, {"a": "s", "b": 1}, []]),
+    # regular expressions Python cannot compile, met by instances the keyword does not apply to: check_schema
+    # accepts them (formats are not enforced on schemas), nothing ever compiles them, and every entry
+    # point, with and without a format checker, agrees
+    ({"pattern": "("}, [1, None, [1], {}]),
+    ({"pattern": "a{2,1}", "type": "integer"}, [1, 2.5]),
+    ({"patternProperties": {"[z-a]": {"type": "string"}}}, [1, "s", [], {}]),
+    ({"properties": {"p": {"pattern": "(?P<n>a)(?P<n>b)"}}, "required": ["q"]}, [{"p": 1}, {"q": 1}, {}]),
 ]
 
 
 def c04(ctx):
     res = ctx.res
     c04_nonmapping(ctx)
-    corpus = [(t, s, i) for (s, insts) in C04_CORPUS for i in insts for t in DRAFT_TAGS]
+    corpus = [(t, s, i, f) for (s, insts) in C04_CORPUS for i in insts for t in DRAFT_TAGS for f in (None, "draft")]
     for _ in range(ctx.n(1500) + len(corpus)):
+        fc0 = None
         if corpus:
-            tag, schema, inst0 = corpus.pop()
+            tag, schema, inst0, fc0 = corpus.pop()
             store, wdocs, info = {}, {}, {"kinds": []}
         else:
             inst0 = None
             tag, schema, store, wdocs, info = gen_case(ctx, refs=ctx.r.random() < 0.2, malformed=0.25)
         cls = impl.DRAFTS[tag]
         inst = ctx.g.instance_for(tag, schema) if inst0 is None else inst0
-        fc = ctx.r.choice([None, None, None, "draft"])
+        fc = ctx.r.choice([None, None, None, "draft"]) if inst0 is None else fc0
         case = {"cls": tag, "schema": schema, "inst": inst, "fc": fc}
         try:
             ok = accepted(tag, schema)
@@ -1208,8 +1233,55 @@ def c07_twins(ctx):
         run(tag, schema, seq, "generated")
 
 
+def c07_soak(ctx):
+    """ONE validator object used several hundred times (is_valid / validate on instances whose first
+    error lies inside a subschema, each call abandoning its iterator early), then asked about instances
+    whose answer is known from a fresh validator: the history must not matter, however long it is"""
+    res, r = ctx.res, ctx.r
+    for tag in DRAFT_TAGS:
+        cls = impl.DRAFTS[tag]
+        sub = {"type": "object", "properties": {"a": {"type": "integer"}, "b": {"items": {"type": "string"}}}}
+        schema = r.choice([
+            {"properties": {"p": sub, "q": {"items": sub}}},
+            {"items": sub, "additionalProperties": sub},
+            {"properties": {"p": {"$ref": "#/definitions/s"}}, "definitions": {"s": sub}, "items": {"$ref": "#/definitions/s"}},
+        ])
+        bad = [{"p": {"a": "x"}}, {"q": [{"a": 1}, {"b": [1]}]}, [{"a": "x"}], {"p": {"b": [1, 2]}}, [{"b": ["s", 1]}], {"zz": {"a": 1.5}}]
+        good = [{"p": {"a": 1}}, {"q": [{"b": ["s"]}]}, [{"a": 2}], {"p": {"b": []}}, 7]
+        used = cls(schema)
+        n = 340 + r.randrange(200)
+        for k in range(n):
+            x = bad[k % len(bad)]
+            try:
+                if k % 3:
+                    used.is_valid(x)
+                else:
+                    used.validate(x)
+            except E.ValidationError:
+                pass
+            except Exception as exc:        # noqa: BLE001
+                res.fail("history-dependent:soak:raised", "call %d of a long history on one validator raised %s" % (k, type(exc).__name__),
+                         {"cls": tag, "schema": schema, "calls": k})
+                break
+        case = {"cls": tag, "schema": schema, "calls": n}
+        res.note(khash(["c07soak", tag, schema]), True, None)
+        for x in good + bad:
+            fresh = cls(copy.deepcopy(schema))
+            want = (fresh.is_valid(x), multiset([impl.err_json(e) for e in fresh.iter_errors(x)]))
+            try:
+                got = (used.is_valid(x), multiset([impl.err_json(e) for e in used.iter_errors(x)]))
+            except Exception as exc:        # noqa: BLE001
+                got = ("raised", type(exc).__name__)
+            if got != want:
+                res.fail("history-dependent:soak", "after %d calls on one validator, %r is judged %r; a fresh validator says %r" % (n, x, got[0], want[0]),
+                         dict(case, inst=x))
+                break
+        res.distribution["soak histories"] += 1
+
+
 def c07_all(ctx):
     c07_twins(ctx)
+    c07_soak(ctx)
     c07(ctx)
 
 
@@ -1230,6 +1302,14 @@ def c08(ctx):
         if arr and ctx.r.random() < 0.7:
             x = ctx.r.choice(arr)
             arr.insert(ctx.r.randrange(len(arr) + 1), ctx.g.twist(x) if ctx.r.random() < 0.7 else copy.deepcopy(x))
+        if ctx.r.random() < 0.1:
+            # the SAME Python containers sitting inside several elements (JSON values are trees: sharing
+            # must not matter; a comparison that remembers object identities shows only here)
+            pool = [{"unit": "m"}, {"unit": "s"}, [1], [True], {"k": [0]}, {"k": [False]}, ctx.g.value(1), ctx.g.value(2)]
+            pool = [q for q in pool if isinstance(q, (list, dict))]
+            arr = [ctx.r.choice([[ctx.r.choice(pool), ctx.r.randrange(3)], {"p": ctx.r.choice(pool), "q": ctx.r.choice(pool)},
+                                 [ctx.r.choice(pool), ctx.r.choice(pool)]]) for _ in range(ctx.r.randrange(3, 8))]
+            res.distribution["arrays with shared containers"] += 1
         case = {"a": a, "b": b, "arr": arr}
         m = ctx.drv.run("EQ", case, oracle_mod.Oracle())
         res.compared += 1
@@ -1366,6 +1446,17 @@ def c09(ctx):
                              "%r on %r is %r, exact arithmetic says %r" % (schema, i, got, want), dict(case, schema=schema, cls=tag))
             if fd > 0:
                 kw = "divisibleBy" if tag == "d3" else "multipleOf"
+                # history: the question asked first about operands that Python's `==`/hash identify with
+                # these but that are of the other numeric class (2 <-> 2.0): an answer remembered per
+                # `==`-equal operands would be the rounded one where the exact one is due, or vice versa
+                if ctx.r.random() < 0.35:
+                    for tw_i, tw_d in ((i, num_twin(d)), (num_twin(i), d), (num_twin(i), num_twin(d))):
+                        if tw_i is not None and tw_d is not None:
+                            try:
+                                cls({kw: tw_d}).is_valid(tw_i)
+                            except Exception:       # noqa: BLE001
+                                pass
+                    res.distribution["multipleOf-after-==-twins"] += 1
                 try:
                     got = cls({kw: d}).is_valid(i)
                 except Exception as exc:       # noqa: BLE001
@@ -1383,6 +1474,21 @@ def c09(ctx):
                     if got != want:
                         res.fail("multipleOf-inexact:" + tag, "%s %r on %r is %r, exact arithmetic says %r" % (kw, d, i, got, want),
                                  dict(case, schema={kw: d}, cls=tag))
+
+
+def num_twin(x):
+    """the number of the other class that Python's == identifies with x (None if there is none)"""
+    try:
+        if isinstance(x, bool):
+            return None
+        if isinstance(x, int):
+            f = float(x)
+            return f if f == x else None
+        if isinstance(x, float) and x == int(x):
+            return int(x)
+    except (OverflowError, ValueError):
+        pass
+    return None
 
 
 def all_flags_ok(tag, flags, _):
@@ -1546,6 +1652,16 @@ def c10(ctx):
         # the other draft's id keyword is inert as well
         if ctx.r.random() < 0.2:
             s2["$id" if tag in ("d3", "d4") else "id"] = "http://wrong.example/base/"
+        if wdocs and ctx.r.random() < 0.6:
+            # … also when its value is the very URI of a document some reference has retrieved: a schema
+            # object sitting in an unknown keyword's value, calling itself (with the OTHER drafts' id
+            # keyword) by that URI and rejecting everything, is no schema of this draft and nobody's target
+            fid = "$id" if tag in ("d3", "d4") else "id"
+            u = ctx.r.choice(sorted(wdocs))
+            reject = {"disallow": "any"} if tag == "d3" else {"not": {}}
+            s2[ctx.r.choice(["x-embedded", "examples", "$defs", "x-bundle"])] = ctx.r.choice([
+                dict(reject, **{fid: u}), [dict(reject, **{fid: u})], {"inner": dict(reject, **{fid: u + "#"})}])
+            res.distribution["foreign id naming a retrieved document"] += 1
         rspec = {"store": [[k, v] for k, v in store.items()]}
         for _ in range(2):
             inst = ctx.g.instance_for(tag, schema)
@@ -2330,8 +2446,11 @@ def c20_registrations(ctx):
         saved_v = dict(V.validators)
         saved_m = dict(V.meta_schemas.store)
         try:
-            uri = "http://example.org/house-%d-%d/schema#" % (ctx.seed, n)
-            spelling = ctx.r.choice([uri, uri.rstrip("#"), uri.rstrip("#") + "#"])
+            # the id's fragment: empty (the usual case), absent, or NOT empty (legal, rare: then only the
+            # exact spelling names the class, and the fragment-less URL stays unknown)
+            frag = ctx.r.choice(["#", "#", "", "#v2", "#/definitions/dialect"])
+            uri = "http://example.org/house-%d-%d/schema%s" % (ctx.seed, n, frag)
+            spelling = ctx.r.choice([uri, uri.rstrip("#"), uri.rstrip("#") + "#"]) if len(frag) < 2 else uri
             body = ctx.r.choice([{"const": 1}, {"type": "integer"}, {"minimum": 3}])
             schema = dict(body)
             schema["$schema"] = spelling
@@ -2391,6 +2510,32 @@ def c20_registrations(ctx):
             if got != ("valid", False):
                 res.fail("validate-vs-selected:after-registration",
                          "after registering a class for %r validate() gave %r although validator_for() selects the new class (which accepts)" % (uri, got), case)
+            if len(frag) >= 2:
+                with warnings.catch_warnings(record=True) as w4:
+                    warnings.simplefilter("always")
+                    bare = uri.split("#")[0]
+                    for u in (bare, bare + "#"):
+                        if V.validator_for({"$schema": u}) is not V._LATEST_VERSION or not any("metaschema" in str(x.message) for x in w4):
+                            res.fail("selection:fragment-ignored", "%r is registered; %r is not, yet it selected %s" % (uri, u, V.validator_for({"$schema": u}).__name__), case)
+                            break
+            # the SAME id registered once more (every spelling has been looked up by now): the class
+            # registered later is the one its metaschema id selects, in every spelling, and validate() follows
+            def _reject(validator, value, instance, schema):
+                yield E.ValidationError("rejected by the class registered last")
+            House4 = V.create(meta_schema={"$id": uri}, validators={kw: _reject}, version="house%d-again" % n)
+            with warnings.catch_warnings():
+                warnings.simplefilter("ignore")
+                spellings = [uri] if len(frag) >= 2 else [uri, uri.rstrip("#"), uri.rstrip("#") + "#"]
+                for u in spellings:
+                    got_cls = V.validator_for({"$schema": u})
+                    if got_cls is not House4:
+                        res.fail("selection:stale-after-reregistration",
+                                 "after a second class was registered for %r, %r still selects %s" % (uri, u, got_cls.__name__), case)
+                        break
+            got = outcome()
+            if got != ("invalid", False):
+                res.fail("validate-vs-selected:after-reregistration",
+                         "after a second class (which rejects) was registered for %r validate() gave %r" % (uri, got), case)
         finally:
             V.validators.clear()
             V.validators.update(saved_v)
